@@ -375,7 +375,7 @@ worker(void *arg) {
       usleep(5000);
   }
   for (i = 0; i < k->ops; i++) {
-    int what = (int)(rnd() % 12);
+    int what = (int)(rnd() % 13);
     atomic_fetch_add(&op_count[what], 1);
     cur_what = what;
     switch (what) {
@@ -488,6 +488,38 @@ worker(void *arg) {
           coap_free_context(x);
       }
       break;
+    case 12: {
+      /* the cache API from an application thread (the handlers use it from callbacks): key
+       * from a request, entry created, looked up both ways, application data, entry deleted */
+      coap_pdu_t *p;
+      op("cache");
+      p = mine ? coap_pdu_init(COAP_MESSAGE_NON, COAP_REQUEST_CODE_GET, 0, 64) : NULL;
+      if (p) {
+        coap_cache_key_t *key;
+        coap_cache_entry_t *e;
+        snprintf(name, sizeof(name), "k%d_%d", k->w, (int)(rnd() % 3));
+        coap_add_option(p, COAP_OPTION_URI_PATH, strlen(name), (const uint8_t *)name);
+        key = coap_cache_derive_key(mine, p, COAP_CACHE_IS_SESSION_BASED);
+        e = coap_cache_get_by_pdu(mine, p, COAP_CACHE_IS_SESSION_BASED);
+        if (!e)
+          e = coap_new_cache_entry(mine, p, rnd() & 1 ? COAP_CACHE_RECORD_PDU :
+                                   COAP_CACHE_NOT_RECORD_PDU, COAP_CACHE_IS_SESSION_BASED,
+                                   0 /* never expires: only this thread deletes it */);
+        if (e && key) {
+          coap_cache_entry_t *e2 = coap_cache_get_by_key(cli, key);
+          if (e2 == e) {
+            coap_cache_set_app_data(e, malloc(8), free);
+            (void)coap_cache_get_app_data(e);
+            if (rnd() & 1)
+              coap_delete_cache_entry(cli, e);
+          }
+        }
+        if (key)
+          coap_delete_cache_key(key);
+        coap_delete_pdu(p);
+      }
+      break;
+    }
     case 11:
       op("send-to-dead-port");
       if (!dead) {
